@@ -21,6 +21,8 @@ def P(e: int) -> Dict[str, Any]:
         return {}
     edges = {f"n.{e}→n.{e+1}": {"id": f"n.{e}→n.{e+1}", "src": f"n.{e}", "dst": f"n.{e+1}", "weight": 0.25 * e, "rel": "coact", "attrs": {}},
              "a→b": {"id": "a→b", "src": "a", "dst": "b", "weight": 0.5, "rel": "coact", "attrs": {}},
+             # keys that END in the path separator / escape character (only present from etag 2 on, so a delta adds them)
+             **({"U.S.→café.": {"id": "U.S.→café.", "src": "U.S.", "dst": "café.", "weight": 0.375, "rel": "coact", "attrs": {"back\\": e}}} if e >= 2 else {}),
              # ids with the code points str.splitlines() also breaks on (NEL, LS, PS) and other odd whitespace:
              # the header+payload file format is line based
              "l\u2028s→p\u2029s": {"id": "l\u2028s→p\u2029s", "src": "l\u2028s", "dst": "p\u2029s", "weight": 0.125, "rel": "co\u0085act",
@@ -95,8 +97,21 @@ def replay_history(case) -> List[Tuple[str, str, str]]:
             elif op == "corrupt":
                 p = full(step["e"])
                 st = os.stat(p)
-                with open(p, "w") as f:
-                    f.write('{"schema": "snapshot:v1", "mode": "full"\n{"version_etag": ')
+                # (a well-formed file with a foreign payload is not detectably corrupt and is not generated here)
+                ckind = (len(h) + step["e"] + case.get("ck", 0)) % 3
+                if ckind == 0 or EMPTY_ETAG[0] == step["e"]:        # truncated inside the payload
+                    with open(p, "w") as f:
+                        f.write('{"schema": "snapshot:v1", "mode": "full"\n{"version_etag": ')
+                elif ckind == 1:      # one byte inside a string VALUE turned into an invalid UTF-8 byte: the JSON shape survives a lenient decode
+                    with open(p, "rb") as f:
+                        raw = f.read()
+                    k = raw.rfind(b'"coact"')
+                    raw = raw[:k + 2] + b"\xff" + raw[k + 3:] if k >= 0 else raw[:-3] + b"\xff" + raw[-2:]
+                    with open(p, "wb") as f:
+                        f.write(raw)
+                else:                 # binary garbage
+                    with open(p, "wb") as f:
+                        f.write(bytes(range(256)) * 3)
                 os.utime(p, (st.st_mtime, st.st_mtime))
             elif op in ("read_etag", "read_path"):
                 want = step["res"]
@@ -162,7 +177,7 @@ def check(run) -> None:
         from ..tlc import TLCError
         raise TLCError("SnapshotStore without LoadFallback should violate NoMixedState")
     run.ok("Model.loader_without_fallback_refuted")
-    cases = [dict(c, workdir=run.workdir) for c in res.emitted]
+    cases = [dict(c, workdir=run.workdir, ck=i % 3) for i, c in enumerate(res.emitted)]
     # the same histories with the empty object as the payload of etag 1 (every seventh history, etag 2 for some)
     cases += [dict(c, workdir=run.workdir, empty_etag=1 + (i // 7) % 2) for i, c in enumerate(res.emitted) if i % 7 == 0]
     outs = pmap(replay_history, cases, chunk=50)
